@@ -2,6 +2,7 @@ package rules
 
 import (
 	"fmt"
+	"go/types"
 	"strings"
 
 	"golang.org/x/tools/go/ssa"
@@ -166,5 +167,63 @@ func runPOS2(c *load.Ctx, r *report.RuleResult) {
 	}
 	for _, rel := range sortedKeys(per) {
 		r.OK("lexeme-maker|"+rel, "", fmt.Sprintf("%d site(s) in a scanner package", per[rel]))
+	}
+}
+
+// --- POS-3: an error found inside an added type is moved into the root file -----------------------------
+
+func init() {
+	register(&Rule{ID: "POS-3", Min: 1, Run: runPOS3,
+		Doc: "an error found while an added type is checked leaves with the root file and the type's offset in it: in the recover handler of checkSchema.checkType, every re-raise of a positioned error (a panic whose operand is an errors.DocumentError) is dominated by a call of SetFile and a call of SetIndex on that error — a re-base that is skipped under a condition (the file names are equal, the offset is zero) leaves the position of a type cut out of the middle of a file relative to the type's own first byte"})
+}
+
+func runPOS3(c *load.Ctx, r *report.RuleResult) {
+	fn := c.Func(pkgChecker, "checkSchema.checkType")
+	setFile := c.Func("errors", "DocumentError.SetFile")
+	setIndex := c.Func("errors", "DocumentError.SetIndex")
+	if fn == nil || setFile == nil || setIndex == nil {
+		r.Unk("anchor|checkSchema.checkType", "", "checkType, DocumentError.SetFile or DocumentError.SetIndex not found")
+		return
+	}
+	n := 0
+	for _, h := range fn.AnonFuncs {
+		for _, b := range h.Blocks {
+			for _, ins := range b.Instrs {
+				p, ok := ins.(*ssa.Panic)
+				if !ok {
+					continue
+				}
+				mi, ok := p.X.(*ssa.MakeInterface)
+				if !ok {
+					continue
+				}
+				nt, ok := mi.X.Type().(*types.Named)
+				if !ok || nt.Obj().Name() != "DocumentError" {
+					continue
+				}
+				n++
+				key := fmt.Sprintf("rebase|%s|re-raise#%d", load.FuncKey(fn), n)
+				var missing []string
+				for _, want := range []*ssa.Function{setFile, setIndex} {
+					ok := false
+					for _, cs := range callSites(h, want) {
+						if dominatesInstr(cs, p) {
+							ok = true
+						}
+					}
+					if !ok {
+						missing = append(missing, want.Name())
+					}
+				}
+				if len(missing) > 0 {
+					r.Bad(key, c.Pos(p.Pos()), fmt.Sprintf("the positioned error is re-raised on a path that does not pass %s: its position stays relative to the added type's own text", strings.Join(missing, " and ")))
+				} else {
+					r.OK(key, c.Pos(p.Pos()), "SetFile and SetIndex dominate the re-raise")
+				}
+			}
+		}
+	}
+	if n == 0 {
+		r.Bad("rebase|"+load.FuncKey(fn), c.Pos(fn.Pos()), "checkType has no handler that re-raises a positioned error: errors inside added types keep the type's own file and offsets")
 	}
 }
